@@ -249,6 +249,19 @@ func vpC27GenURI() *rapid.Generator[string] {
 		for i := 0; i < np; i++ {
 			sb.WriteString(rapid.SampledFrom(vpC27Paths).Draw(t, "path"))
 		}
+		if rapid.IntRange(0, 3).Draw(t, "anypath") == 0 {
+			// a segment of arbitrary escaped / raw bytes: every byte value reaches the path quoting table
+			sb.WriteString("/")
+			k := rapid.IntRange(1, 6).Draw(t, "nany")
+			for i := 0; i < k; i++ {
+				c := rapid.Byte().Draw(t, "anybyte")
+				if c >= 0x20 && c != 0x7f && rapid.Bool().Draw(t, "rawbyte") {
+					sb.WriteByte(c)
+				} else {
+					fmt.Fprintf(&sb, "%%%02X", c)
+				}
+			}
+		}
 		sb.WriteString(rapid.SampledFrom(vpC27Queries).Draw(t, "query"))
 		if rapid.IntRange(0, 5).Draw(t, "q2") == 0 {
 			sb.WriteString("&")
